@@ -1091,3 +1091,22 @@ Proof.
   repeat split; try (vm_compute; reflexivity).
   eexists. eexists. split; [vm_compute; reflexivity|]. split; reflexivity.
 Qed.
+
+(** A whole kernel list - any number of launches, launches that share kernel
+    name and launch configuration included - parses launch by launch to what
+    was serialised for THAT launch; reading other files before or after does
+    not matter. *)
+Theorem parse_dir_roundtrip (ks : list kernel) :
+  Forall valid_kernel ks ->
+  parse_dir (map print_kernel ks) = map (fun k => Some (k_hdr k, map expected_block (k_blocks k))) ks.
+Proof.
+  unfold parse_dir. induction 1 as [|k r V _ IH]; simpl; [reflexivity|].
+  rewrite (parse_print_kernel_roundtrip k V), IH. reflexivity.
+Qed.
+
+Theorem parse_dir_independent (before after : list (list line)) (f : list line) :
+  nth (List.length before) (parse_dir (before ++ f :: after)) None = parse_kernel f.
+Proof.
+  unfold parse_dir. rewrite map_app. rewrite app_nth2 by (rewrite map_length; auto).
+  rewrite map_length, Nat.sub_diag. reflexivity.
+Qed.
